@@ -17,7 +17,7 @@ from harness.props import compare_common as cc
 MANIFEST = dict(
     category="proof",
     technique="Lean 4 theorems over a hand-written model of the compare engine + differential correspondence with the implementation",
-    text="Lean theorems, unbounded in tree size/depth, stated for EVERY flag record (C07_reachable / C07_reachable_iff: the configurations reachable through any history of set__flag_compare_* calls are exactly those satisfying FlagInv, so 'every flag record' covers them): C07_direct_exact - on recursively converted trees with roots of the same kind direct_compare returns and its differences list is empty iff the trees are structurally equal (deq: same key set with equal values, same list length and order, leaves equal with equal type, None only equals None); C07_default_exact_partial - the default compare (no composite key) reports nothing iff the trees are equal up to the order of the non-record items inside each list (eqv), under the hypothesis NoStrCollision (str() injective on the non-record list items and never empty) - the full statement C07_default_exact_stmt is refuted on the pinned tree by C07_collision_cex / C07_emptykey_cex (known finding C07-b; C07-c is the dict-key-order variant seen by the Python oracle); C07_flags_only_add_detail / C07_verdict_flags - for every option record two flag records give the same exception class or the same number of lines and the same core entries (numeric deltas, equal-lists, shown places and the difftypes/not_equal placement are the only things that vary). The model (lean/N0Verif/Model/Compare.lean) follows n0dict.compare/direct_compare, n0list.compare/direct_compare, xpath_match, generate_composite_keys, update_extend and the flag machine branch by branch for the code WITH fix patches C07-a, C08-a, C09-a applied; it is compared with the implementation on generated pairs of trees (verdict, entry sets with rendered paths and values, number of prose lines, exception class) and the statement itself is executed on the implementation with Python-side oracles.",
+    text="Lean theorems, unbounded in tree size/depth, stated for EVERY flag record (C07_reachable / C07_reachable_iff: the configurations reachable through any history of set__flag_compare_* calls are exactly those satisfying FlagInv, so 'every flag record' covers them): C07_direct_exact - on recursively converted trees with roots of the same kind direct_compare returns and its differences list is empty iff the trees are structurally equal (deq: same key set with equal values, same list length and order, leaves equal with equal type, None only equals None); C07_default_exact_partial - the default compare (no composite key) reports nothing iff the trees are equal up to the order of the non-record items inside each list (eqv), under the hypothesis NoStrCollision (str() injective on the non-record list items and never empty); C07_default_exact_local (Proofs/CompareDefaultTight.lean) - the same equivalence under the LOCAL, one-sided hypothesis DtLocalOK b: in every list of the right operand two items with the same key (str() of a non-record item, '' for a record) are both records or identical - exactly the class of finding C07-b ([1,'1'], ['',{}], [None,'None'] inside ONE list; collisions between items of two different lists such as [1] against ['1'] are allowed, nothing is asked of the left operand's lists) - plus DtNestedInj (str() determines the lists nested directly in lists; vacuous without list-in-list; needed in the model only because floats are opaque lexemes, C07_nested_needed_cex); C07_local_of_noStrCollision / C07_local_strictly_weaker - NoStrCollision implies the local hypotheses and not conversely; the class is TIGHT: C07_collision_class_tight - for ANY two distinct leaves x, y with str(x) == str(y) the lists [x, y] and [y, x] are equal up to order and two differences are reported, C07_collision_class_tight_rec - likewise [x, R] / [R, x] for any leaf with empty str() and any record R; the full statement C07_default_exact_stmt is refuted on the pinned tree by C07_collision_cex / C07_emptykey_cex (known finding C07-b; C07-c is the dict-key-order variant seen by the Python oracle); C07_flags_only_add_detail / C07_verdict_flags - for every option record two flag records give the same exception class or the same number of lines and the same core entries (numeric deltas, equal-lists, shown places and the difftypes/not_equal placement are the only things that vary). The model (lean/N0Verif/Model/Compare.lean) follows n0dict.compare/direct_compare, n0list.compare/direct_compare, xpath_match, generate_composite_keys, update_extend and the flag machine branch by branch for the code WITH fix patches C07-a, C08-a, C09-a applied; it is compared with the implementation on generated pairs of trees (verdict, entry sets with rendered paths and values, number of prose lines, exception class) and the statement itself is executed on the implementation with Python-side oracles.",
     note='str()/repr() of values, xpath_match and the flag machine are modelled and validated by their own streams (cmp.keys, cmp.match, cmp.flags incl. all histories of length <= 3/4); floats are opaque lexemes (NaN, infinities, -0.0 excluded); ints stay within float range; dictionary keys unique (Python dicts).',
     design_ref='5/C07',
 )
